@@ -818,6 +818,9 @@ func init() {
 			if run%1597 == 11 || run%1597 == 811 {
 				g.geomClass, g.nOps = "wide", 40 // volume stratum
 			}
+			if run%797 == 5 {
+				g.geomClass, g.nOps, g.bigLits = "mega", 20, false // windows and first write of 1 MiB and more
+			}
 			if run%4 == 3 {
 				// stratum with a partially accepting / failing writer: "each byte
 				// once and in order" must also hold when WriteTo/Flush is retried
@@ -869,6 +872,9 @@ func init() {
 			if run%1597 == 11 {
 				g.geomClass, g.nOps = "wide", 40 // volume stratum
 			}
+			if run%797 == 5 {
+				g.geomClass, g.nOps, g.sizes = "mega", 20, "fit"
+			}
 			if run%4 == 3 {
 				// calls stopped early by a writer error (also inside the chunked
 				// Write of oversize trailing literals): counts must still be exact
@@ -893,6 +899,9 @@ func init() {
 			// free space (Decoder.Write chunks them; sequences still fit)
 			if run%1597 == 11 || run%1597 == 811 {
 				cls = "wide" // volume stratum: flushes of hundreds of KiB meet the faults
+			}
+			if run%797 == 5 {
+				cls = "mega"
 			}
 			return genDecoderTrace(r, dgen{target: "decoder", nOps: 30, sizes: "fit", readBias: 4, resetW: 1, wfaults: true, retry: 0.9, firstFault: run % 14, geomClass: cls, bigLits: run%3 == 2})
 		},
